@@ -131,7 +131,7 @@ struct Drv {
     rechecks_after_parent_freed: u64,
     small: bool,
     layouts: Vec<String>,
-    data_dir: String,
+    data_dirs: Vec<String>,
     max_live: usize,
 }
 
@@ -254,7 +254,8 @@ impl Drv {
         let l = CString::new(self.layouts[li].clone()).unwrap();
         self.call("riti_config_set_layout_file");
         let ok1 = riti_config_set_layout_file(c, l.as_ptr());
-        let d = CString::new(self.data_dir.clone()).unwrap();
+        let di = if self.rng.chance(1, 2) { 0 } else { self.rng.below(self.data_dirs.len()) };
+        let d = CString::new(self.data_dirs[di].clone()).unwrap();
         self.call("riti_config_set_database_dir");
         let ok2 = riti_config_set_database_dir(c, d.as_ptr());
         self.comparisons += 2;
@@ -520,7 +521,7 @@ unsafe fn scripted(d: &mut Drv) {
         let l = CString::new(d.layouts[li].clone()).unwrap();
         d.call("riti_config_set_layout_file");
         riti_config_set_layout_file(c, l.as_ptr());
-        let dd = CString::new(d.data_dir.clone()).unwrap();
+        let dd = CString::new(d.data_dirs[0].clone()).unwrap();
         d.call("riti_config_set_database_dir");
         riti_config_set_database_dir(c, dd.as_ptr());
         d.call("riti_config_set_phonetic_suggestion");
@@ -559,6 +560,7 @@ unsafe fn scripted(d: &mut Drv) {
         let xi = d.ctxs.iter().position(|x| x.ptr == ctx).unwrap();
         // words chosen so that the pre-edit text differs in length from the candidate under ANSI (e-kar, conjuncts, ASCII),
         // a left-standing sign first (empty auxiliary text while it is pending), punctuation, and a backspace to empty
+        // (the third word is a, m, i: keys of the user's auto-correct file)
         let words: [&[u16]; 5] = [&[0xA0A0, 0xA09A], &[0xA09E, 0xA0A0], &[0xA096, 0xA0A2, 0xA09E], &[0x0034], &[0xA0A0, 0x0035, 0xA0A0, 0x001A]];
         let nwords = if d.small && sugg { 1 } else { words.len() };
         for w in words.iter().take(nwords) {
@@ -584,6 +586,45 @@ unsafe fn scripted(d: &mut Drv) {
             riti_string_free(st.ptr);
         }
     }
+    // a second context over another database directory while the first one is alive: both keep working on their own data
+    // (under Miri a second context costs about a minute: only when asked for - the thorough tier does)
+    if d.small && std::env::var("FFIDRV_SECOND_CTX").is_err() {
+        return;
+    }
+    if let Some(first) = scripted_ctx {
+        d.call("riti_config_new");
+        let c = riti_config_new();
+        let l = CString::new(d.layouts[0].clone()).unwrap();
+        d.call("riti_config_set_layout_file");
+        riti_config_set_layout_file(c, l.as_ptr());
+        let dd = CString::new(d.data_dirs[1].clone()).unwrap();
+        d.call("riti_config_set_database_dir");
+        riti_config_set_database_dir(c, dd.as_ptr());
+        d.call("riti_config_set_phonetic_suggestion");
+        riti_config_set_phonetic_suggestion(c, false);
+        d.call("riti_context_new_with_config");
+        let second = riti_context_new_with_config(c);
+        d.next_ctx += 1;
+        d.ctxs.push(LiveCtx { ptr: second, id: d.next_ctx, fixed: false, ansi: false, on_screen: 0, highlight: 0 });
+        d.cfgs.push(LiveCfg { ptr: c, usable: true, fixed: false, ansi: false });
+        for ctx in [first, second, first] {
+            let xi = d.ctxs.iter().position(|x| x.ptr == ctx).unwrap();
+            for k in [0xA0A0u16, 0xA096] {
+                d.call("riti_get_suggestion_for_key");
+                let s = riti_get_suggestion_for_key(ctx, k, 0, 0);
+                d.adopt(xi, s);
+                let i = d.suggs.len() - 1;
+                d.readout(i);
+            }
+            d.call("riti_context_finish_input_session");
+            riti_context_finish_input_session(ctx);
+            d.ctxs[xi].on_screen = 0;
+        }
+        for st in std::mem::take(&mut d.strs) {
+            d.call("riti_string_free");
+            riti_string_free(st.ptr);
+        }
+    }
 }
 
 fn main() {
@@ -599,11 +640,16 @@ fn main() {
     let sessions: u64 = a.get(5).and_then(|s| s.parse().ok()).unwrap_or(1);
     std::fs::create_dir_all(format!("{root}/openbangla-keyboard")).expect("scratch");
     std::env::set_var("XDG_DATA_HOME", &root);
-    let data_dir = if small { "/verif/data_small".to_string() } else { "/repo/data".to_string() };
+    // several database directories in one process: every context must keep using its own
+    let data_dirs: Vec<String> = if small { vec!["/verif/data_small".to_string(), "/verif/data_small2".to_string()] } else { vec!["/repo/data".to_string(), "/verif/data_small".to_string(), "/verif/data_small2".to_string()] };
     let layouts = vec!["avro_phonetic".to_string(), "/repo/data/Probhat.json".to_string(), "/verif/layouts/verif.json".to_string()];
     let mut total: BTreeMap<&'static str, u64> = BTreeMap::new();
     let (mut mism, mut comps, mut moved, mut freed) = (0, 0, 0, 0);
     for s in 0..sessions {
+        // the user's auto-correct file: in even sessions a well-formed JSON document whose replacements are not UTF-8
+        // (to be ignored as damaged - nothing of it may reach a returned string), in odd sessions a valid one
+        let ac: &[u8] = if s % 2 == 0 { b"{\"a\":\"caf\xE9\",\"m\":\"t\xFFmar\",\"am\":\"\xC3\x28\",\"ami\":\"x\xE9\",\"k\":\"\xFF\"}" } else { b"{\"a\":\"amar\",\"ami\":\"tumi\",\"k\":\"kO\"}" };
+        std::fs::write(format!("{root}/openbangla-keyboard/autocorrect.json"), ac).expect("user file");
         let mut d = Drv {
             rng: Rng((seed.wrapping_mul(0x9E37_79B9_7F4A_7C15) ^ (s + 1).wrapping_mul(0xD1B5_4A32_D192_ED03)) | 1),
             calls: BTreeMap::new(),
@@ -618,7 +664,7 @@ fn main() {
             rechecks_after_parent_freed: 0,
             small,
             layouts: layouts.clone(),
-            data_dir: data_dir.clone(),
+            data_dirs: data_dirs.clone(),
             max_live: if small { 6 } else { 24 },
         };
         unsafe {
